@@ -135,7 +135,7 @@ def max_b(a, b):
 def run(repo, rep, tier):
     rep.decided = ["D1 weekday == floor(JDE + 1.5) mod 7, 0 = Sunday", "D2 no proleptic-Gregorian date arithmetic on Julian years",
                    "D3 GMST == IAU 1982 (1e-7 d), rate 1.00273790935, modulo 1; apparent = mean + dpsi*cos(eps)/15; MJD offset"]
-    rep.undecided = ["weekday constant over a civil day", "day of year == JDE difference + 1", "fractional year strictly increasing"]
+    rep.undecided = ["weekday constant over a civil day", "day of year == JDE difference + 1", "fractional year strictly increasing (decided: its denominator is the year length get_doy itself uses, for every year)"]
     rep.assumptions = ["floor(x) + n == floor(x + n) for integer n"]
     rep.rule("R-E4-ID", "formula identity")
     # D1 weekday
@@ -181,12 +181,98 @@ def run(repo, rep, tier):
         rep.ok("R-E4-ID", "Epoch.Epoch.mjd", "MJD == JDE - 2400000.5", obligation=True)
     else:
         rep.violation("R-E4-ID", "Epoch.Epoch.mjd", "mjd-offset", "mjd() is not JDE - 2400000.5: " + T.show(t)[:80], obligation=True)
+    year_fraction(repo, rep)
     fam = [("Epoch", "Epoch." + q) for q in ("dow", "get_doy", "doy", "doy2date", "year", "leap", "is_leap", "mean_sidereal_time",
                                               "apparent_sidereal_time", "mjd", "jde")]
     units.check_functions(repo, rep, fam)
     guards.check_functions(repo, rep, fam)
     effects.check_functions(repo, rep, fam)
     return "other"
+
+
+def stdlib_prims(repo):
+    """exact meaning of the stdlib primitives the calendar code relies on (proleptic Gregorian), and of Epoch.is_leap by its own term"""
+    import calendar as _cal
+    import datetime as _dt
+    from ..rules import eval_exact, NotEvaluable
+    fn = repo.func("Epoch", "Epoch.is_leap")
+    isleap_t = ret_term(repo, "Epoch", "Epoch.is_leap", arg_terms={fn.args.args[0].arg: T.sym("NUM_ARG")})
+
+    def prims(t, env):
+        if t[0] == "call" and t[1] == "calendar.isleap" and len(t) == 3:
+            return bool(_cal.isleap(int(eval_exact(t[2], env, prims))))
+        if t[0] == "call" and t[1] == "Epoch.Epoch.is_leap" and len(t) == 3:
+            v = eval_exact(t[2], env, prims)
+            e2 = dict(env or {})
+            e2[T.sym("NUM_ARG")] = v
+            return eval_exact(isleap_t, e2, prims)
+        if t[0] == "attr" and t[2] == "tm_yday" and t[1][0] == "call" and t[1][1] == ".timetuple" and t[1][2][0] == "call" \
+                and t[1][2][1] == "datetime.date":
+            y, m, d = (int(eval_exact(x, env, prims)) for x in t[1][2][2:5])
+            if not 1 <= y <= 9999:
+                raise NotEvaluable("datetime.date out of range")
+            return Fraction(_dt.date(y, m, d).timetuple().tm_yday)
+        return None
+    return prims
+
+
+def year_fraction(repo, rep):
+    """R-YEARLEN: Epoch.year() = Y + (doy - 1)/N.  N must be the day number get_doy itself gives to 31 December
+    of the same year, for every year: otherwise the fraction reaches 1 before the year ends (integer part wrong,
+    not increasing) or jumps at New Year.  Both sides depend on the year only through comparisons with 1582/1583
+    and residues modulo 4/100/400, so they are compared on every such class."""
+    from ..rules import eval_exact, NotEvaluable
+    rep.rule("R-YEARLEN", "denominator of the fractional year == get_doy(year, 12, 31) for every class of year (side of 1582/1583, residue mod 400, sign)")
+    q = "Epoch.year"
+    site = "Epoch." + q
+    rep.fn("Epoch", q)
+    J = ("epoch", T.sym("J"))
+    t = ret_term(repo, "Epoch", q, arg_terms={"self": J})
+    gd = T.call("Epoch.Epoch.get_date", J)
+    Y, Mo, D = (("idx", gd, T.num(i)) for i in range(3))
+    rest = T.sub(t, Y)
+    dens = [x for x in T.walk(rest) if x[0] == "pow" and x[2] == T.num(-1)]
+    doy = T.call("Epoch.Epoch.get_doy", Y, Mo, D)
+    ok_shape = len(dens) == 1 and rest == T.mul(T.add(doy, T.num(-1)), dens[0])
+    if not ok_shape:
+        rep.inconcl("R-YEARLEN", site, "fractional year is not of the form Y + (get_doy(Y, M, D) - 1)/N: " + T.show(t)[:120])
+        return
+    N = dens[0][1]
+    leap_t = ret_term(repo, "Epoch", "Epoch.leap", arg_terms={"self": J})
+    N = T.subst(N, {T.call("Epoch.Epoch.leap", J): leap_t})
+    N = T.subst(N, {Y: T.sym("NUM_Y")})
+    fn = repo.func("Epoch", "Epoch.get_doy")
+    an = [a.arg for a in fn.args.args]
+    M = ret_term(repo, "Epoch", "Epoch.get_doy", arg_terms={an[0]: T.sym("NUM_Y"), an[1]: T.num(12), an[2]: T.num(31)})
+    prims = stdlib_prims(repo)
+    years = list(range(-12, 13)) + list(range(1180, 1583 + 401))
+    bad = []
+    n = 0
+    for y in years:
+        env = {T.sym("NUM_Y"): Fraction(y)}
+        try:
+            nv = eval_exact(N, env, prims)
+            mv = eval_exact(M, env, prims)
+        except NotEvaluable as e:
+            if y >= 1:
+                bad.append((y, "not decidable: %s" % e, None))
+            continue
+        n += 1
+        if nv != mv:
+            bad.append((y, nv, mv))
+    rep.floor("year classes compared for the fractional year", n, 800)
+    if not bad:
+        rep.ok("R-YEARLEN", site, "N == get_doy(Y, 12, 31) on all %d year classes (both sides of 1582/1583, every residue mod 400, negative years)" % n,
+               obligation=True)
+        return
+    y, nv, mv = bad[0]
+    more = ", ".join(str(b[0]) for b in bad[1:6])
+    if mv is None:
+        rep.inconcl("R-YEARLEN", site, "year %d: %s" % (y, nv))
+    else:
+        rep.violation("R-YEARLEN", site, "year-length:%d" % y,
+                      "fractional year of %d divides by %s days although get_doy gives 31 December the number %s: year() reaches or passes the next integer "
+                      "inside the year, or jumps at New Year (also: %s%s)" % (y, float(nv), float(mv), more, " ..." if len(bad) > 6 else ""), obligation=True)
 
 
 def d2_formula(repo, rep):
